@@ -315,6 +315,43 @@ func pinnedArith(t *mon.T, which string) {
 	}
 }
 
+// coincidenceExps: the k <= 100000 at which 10^k lies within 5e-4 of a power
+// of two; see gen.CoincidenceExps.
+var coincidenceExps = gen.CoincidenceExps(129, 100000, 5e-4)
+
+// coincidenceArithCase makes the exact result (or an operand) a number of
+// k+1 digits just above 10^k for such a k - the numbers whose digit count a
+// bit-length based estimate gets wrong first - and has it rounded at a small
+// precision: 1E+k + v, Round(10^k + v), (10^k + v) / 1, (10^j + a)(10^(k-j) + b).
+func coincidenceArithCase(t *mon.T, which string) {
+	r := t.Rng
+	k := coincidenceExps[t.Index%int64(len(coincidenceExps))]
+	c := dec.Ctx{P: int64(1 + r.Intn(30)), Emin: -100000, Emax: 100000, Mode: gen.Mode(r)}
+	neg := r.Bool()
+	small := big.NewInt(r.Range(1, 99))
+	if r.Chance(1, 3) {
+		// a tail that is a tie or near-tie one digit below the last kept digit
+		small = new(big.Int).Mul(big.NewInt(r.Range(4, 6)), dec.Pow10(k-c.P-1))
+		small.Add(small, big.NewInt(r.Range(-1, 1)))
+	}
+	big1 := new(big.Int).Add(dec.Pow10(k), small)
+	one := dec.FromInt(1, 0)
+	switch r.Intn(4) {
+	case 0:
+		arithCase(t, which, []string{"add", "sub"}[r.Intn(2)], c, dec.D{Form: dec.Finite, Neg: neg, C: big.NewInt(1), E: k},
+			dec.D{Form: dec.Finite, Neg: neg != (r.Intn(2) == 0), C: small, E: 0})
+	case 1:
+		arithCase(t, which, "round", c, dec.D{Form: dec.Finite, Neg: neg, C: big1, E: -r.Range(0, 50)}, dec.D{})
+	case 2:
+		arithCase(t, which, "quo", c, dec.D{Form: dec.Finite, Neg: neg, C: big1, E: 0}, one)
+	default:
+		j := r.Range(1, k-1)
+		arithCase(t, which, "mul", c, dec.D{Form: dec.Finite, Neg: neg, C: new(big.Int).Add(dec.Pow10(j), big.NewInt(r.Range(0, 9))), E: 0},
+			dec.D{Form: dec.Finite, C: new(big.Int).Add(dec.Pow10(k-j), big.NewInt(r.Range(0, 9))), E: 0})
+	}
+	t.Count("coincidence-lengths")
+}
+
 func runC01(r *mon.Run) {
 	r.Rule = "cases: (op, context, operands) drawn by seeded boundary-biased generators (ties, near-ties, all-nines carries, " +
 		"subnormal band, Etiny, Emax edge, cancellation, operands longer than Precision), context-aware parsing of generated " +
@@ -342,6 +379,8 @@ func runC01(r *mon.Run) {
 		parseCase(t, c, gen.Finite(t.Rng, c))
 	})
 	r.Parallel("p0", r.N(60000, 3000000), p0Case)
+	r.Parallel("coincidence-lengths", int64(len(coincidenceExps))*r.N(3, 40), func(t *mon.T) { coincidenceArithCase(t, "value") })
+	r.Require("coincidence-lengths", 300)
 	if !r.Quick() {
 		gridRun(r, "value")
 	}
